@@ -379,8 +379,9 @@ def main():
         for nant in (1, 2):
             jobs.append(('job_header', (asc, nant)))
     fine = [(L, intf, npol) for L in (1, 2, 4) for intf in (1, 2, 3) for npol in (1, 2)]
+    fine += [(3, 1, 1), (3, 2, 2), (5, 1, 1)]          # odd lengths: the centre bin is not where an even-length split puts it
     if ck.thorough:
-        fine += [(8, 1, 1), (8, 2, 2), (4, 4, 2), (3, 2, 1), (6, 1, 2)]
+        fine += [(8, 1, 1), (8, 2, 2), (4, 4, 2), (3, 2, 1), (6, 1, 2), (7, 1, 1), (5, 2, 2)]
     for (L, intf, npol) in fine:
         if L == 4 and intf == 3 and not ck.thorough:
             continue
@@ -392,7 +393,7 @@ def main():
             jobs.append(('job_reducer', (L, intf, ncards, directio)))
     for (L, intf, ncards, directio, prior) in ((2, 1, 5, 0, (12, 1)), (1, 2, 9, 1, (3, None)), (2, 3, 3, None, (28, 1)), (4, 1, 28, 1, (5, 0))):
         jobs.append(('job_reducer', (L, intf, ncards, directio, prior)))
-    ck.bounds = dict(fftlength='1,2,4', int_factor='1..3', pols='1-2', header='symbolic sample_rate, fch1, start_chan, num_chans, channel c; P=16', reducer_headers='3..30 cards, DIRECTIO absent/0/1 (incl. aligned)')
+    ck.bounds = dict(fftlength='1,2,3,4,5 (fine channelisation; thorough also 6,7,8), 1,2,4 (reducer)', int_factor='1..3', pols='1-2', header='symbolic sample_rate, fch1, start_chan, num_chans, channel c; P=16', reducer_headers='3..30 cards, DIRECTIO absent/0/1 (incl. aligned)')
     ck.run_jobs('props.C07', jobs, timeout_s=900)
     ck.finish()
 
